@@ -112,6 +112,7 @@ inductive Op where
      the gated schedules, where that look happened before a concurrent operation finished -/
   | labelsFrom (r : Req) (force : Bool) (mask : Nat)   -- UpdateStoreLabels after its unlocked GetStore
   | checkOnly (ids : List Nat) (mask : Nat)            -- checkStores restricted to the stores its snapshot listed
+  | restart                                            -- a new leader: fresh cache, `LoadClusterInfo` from storage
   deriving Repr, Inhabited
 
 /-- result of a step: new state, result, the store writes attempted -/
@@ -355,6 +356,16 @@ def regionHeartbeat (s : St) (rid : Nat) (stores : List Nat) : Out :=
   let regions := put s.regions rid stores
   { st := { s with regions := regions, served := refresh regions s.served (stores ++ old) }, res := .ok }
 
+/-- `LoadClusterInfo` on a fresh cache: every stored record is served again (tombstones included), with the
+    stored weights (default 1), no region bookkeeping yet and no recent save; the regions come back from
+    storage as they were -/
+def loaded (s : St) (id : Nat) (m : Meta) : Served :=
+  { md := m, lw := (get s.storedLW id).getD 1000000, rw := (get s.storedRW id).getD 1000000,
+    rcount := 0, persisted := false }
+
+def restart (s : St) : Out :=
+  { st := { s with served := mapVal (loaded s) s.stored }, res := .ok }
+
 def step (s : St) : Op → Out
   | .put r mask => putStore s r mask
   | .gput r mask => grpcPut s r mask
@@ -369,6 +380,7 @@ def step (s : St) : Op → Out
   | .region rid stores => regionHeartbeat s rid stores
   | .labelsFrom r force mask => putImpl s r force (failBit mask 0)
   | .checkOnly ids mask => checkStoresOnly s ids mask
+  | .restart => restart s
 
 def init (cfg : Config) (cv : Ver) : St := { cfg := cfg, cv := cv }
 
